@@ -62,6 +62,9 @@ MNext ==
         r == RefApply(D, st, e)
         p == Append(path, i)
     IN /\ e.fam                 \* calls outside the family (see c24.py) are recorded but not judged
+       \* the call is in the family with respect to the reference state as well: once the real container has left the
+       \* reference (reported on the edge where that happened) the history is not followed further
+       /\ FamCall(D, M, st, e)
        /\ Chk("Accepted", r.ok => e.res = "ok", p)
        /\ IF e.ev = "remove" THEN Chk("RemoveExact", RemoveExact(e.res, e.s, P(node), P(e.dst)), p) ELSE TRUE
        /\ JudgeState(r.st, P(e.dst), p)
